@@ -295,10 +295,23 @@ def run(chk):
     prog = load_config("K1")
     chk.configs.append("K1")
     chk.rule("C06.agree", "per ordering x end kind: single returning path per accessor, region table, history payload == matching accessor's term, stamped with t")
+    chk.rule("C06.pieces", "piece -> mode/unit conversion is defined exactly for InitialAcceleration, ConstantVelocity, EndAcceleration, with and without dimension checking")
     chk.rule("C06.ctor", "returning constructor paths have asserted t1,d2,d3 >= 0, t2 = t1 + d2, t3 = t2 + d3 through one conversion; end command from end state")
     sim = S.Sim(prog)
     check_constructor(chk, prog, sim)
     check_accessors(chk, prog, sim)
+    # piece -> mode / unit conversion table: defined exactly for the three moving pieces, in the checking configuration and
+    # with dimension checking compiled out (K4), where a cfg-split conversion could start accepting BeforeStart / Complete
+    import rules.C01 as C01
+    want = {"Position": (1, 0), "Velocity": (1, -1), "Acceleration": (1, -2)}
+    key = "pieces:conversion-table"
+    chk.obligation(key, "MotionProfilePiece -> PositionDerivative / Unit defined exactly for the moving pieces (K1 and K4)")
+    okp = C01.check_piece_conversions(chk, prog, sim, "C06.pieces", key, want)
+    p4 = load_config("K4")
+    chk.configs.append("K4")
+    okp = C01.check_piece_conversions(chk, p4, S.Sim(p4), "C06.pieces", key, want, "@K4") and okp
+    if okp:
+        chk.discharge(key)
     chk.assume("lemma: f32 x + y >= x for y >= 0 and the seconds->Time conversion is monotone non-decreasing (saturating), hence asserted durations give t1 <= t2 <= t3",
                "i64 overflow inside the value formulas at extreme t is not modelled (guards are plain comparisons)")
     chk.extra["std_models"] = sorted(sim.stats["models_used"])
